@@ -2,6 +2,8 @@ import TrippyVerif.Gen.PktDispatch
 import TrippyVerif.Model.StrategyIO
 import TrippyVerif.Model.Checksum
 import TrippyVerif.Model.Ext
+import TrippyVerif.Model.StateAgg
+import TrippyVerif.Model.BuilderIO
 /-
 Line-protocol driver: one request per input line, one answer per output line.
 The Rust harness (`/verif/harness`, binary `tvh`) runs the real trippy code on the same
@@ -10,12 +12,15 @@ requests; `/verif/check` diffs the two answer streams.
   pkt <type> <fn> <hexbuf> <arg>      a generated packet accessor (C12, C04)
   ext split|te4|te6|du4|du6|exts …          RFC 4884 / 4950 extension parsing (C14)
   cksum <fn> <hexdata> <hexsrc> <hexdst>   the six checksum entry points (C13)
+  agg new|round|dump|get …                  the state aggregator (stateful; C05 C10 C15 C19)
+  cfgb build|cli …                          Builder::build / CLI validation model (C16)
   st cfg … / st it …                  the tracing state machine (stateful; C03 C06 C07 C08 C09)
 -/
 open TV
 
 structure DState where
   st : Strat.DSt := {}
+  agg : Agg.DSt := {}
 
 def step (d : DState) (line : String) : DState × String :=
   match line.trimAscii.toString.splitOn " " with
@@ -27,6 +32,10 @@ def step (d : DState) (line : String) : DState × String :=
       | some s => (d, s)
       | none => (d, "bad-op")
   | ["conc", "noop"] => (d, "ok")
+  | "agg" :: args =>
+    let (a', out) := Agg.handle d.agg args
+    ({ d with agg := a' }, out)
+  | "cfgb" :: rest => (d, (Builder.handle rest).getD "bad-op")
   | "ext" :: rest => (d, (Ext.handle rest).getD "bad-op")
   | "cksum" :: rest => (d, (Cksum.handle rest).getD "bad-op")
   | "st" :: args =>
